@@ -782,7 +782,50 @@ func (f *Frame) invariantsFor(key string) []Clause {
 	var out []Clause
 	for _, c := range f.contract.Invs[key] {
 		for _, e := range splitConj(c.Expr) {
+			if f.dropped[key+"|"+e.String()] {
+				continue
+			}
 			out = append(out, Clause{Tag: c.Tag, Expr: e, Src: e.String()})
+		}
+	}
+	return out
+}
+
+// usableInvariants drops (for the whole function) the invariant conjuncts that cannot be evaluated against the body
+// (a local they name no longer exists, changed type, ...). The function is still verified with the remaining ones: the
+// dropped conjunct's own obligations are reported as undecided, anything that depended on it fails as unproved.
+func (f *Frame) usableInvariants(key string, env *SpecEnv) []Clause {
+	var out []Clause
+	for _, inv := range f.invariantsFor(key) {
+		ok := func() (ok bool) {
+			defer func() {
+				if r := recover(); r != nil {
+					if e, is := r.(*specErr); is {
+						if f.dropped == nil {
+							f.dropped = map[string]bool{}
+						}
+						f.dropped[key+"|"+inv.Src] = true
+						msg := fmt.Sprintf("%s: invariant %s dropped, it cannot be evaluated against the body (%s): %s", shortFn(f.fn), key, e.msg, inv.Src)
+						dup := false
+						for _, d := range f.ex.vc.droppedInvs {
+							if d == msg {
+								dup = true
+							}
+						}
+						if !dup {
+							f.ex.vc.droppedInvs = append(f.ex.vc.droppedInvs, msg)
+						}
+						ok = false
+						return
+					}
+					panic(r)
+				}
+			}()
+			env.boolE(inv.Expr)
+			return true
+		}()
+		if ok {
+			out = append(out, inv)
 		}
 	}
 	return out
@@ -879,7 +922,6 @@ func (f *Frame) resolveName(name string, st *PState) (Val, bool) {
 func (f *Frame) loopHeader(h *ssa.BasicBlock, li *loopInfo, st *PState, edges []inEdge) {
 	ex := f.ex
 	key := fmt.Sprintf("loop%d", f.loopOrd[h])
-	invs := f.invariantsFor(key)
 	// 1. entry values of the phis
 	entryVals := map[ssa.Value]Val{}
 	var phis []*ssa.Phi
@@ -891,11 +933,12 @@ func (f *Frame) loopHeader(h *ssa.BasicBlock, li *loopInfo, st *PState, edges []
 		phis = append(phis, phi)
 		entryVals[phi] = f.phiMerge(phi, edges)
 	}
+	// 2. invariant holds on entry
+	env := f.loopEnv(st, entryVals, h)
+	invs := f.usableInvariants(key, env)
 	if len(invs) == 0 && f.contract != nil && !f.inlined && ex.safetyTag == "" {
 		ex.vc.Note(fmt.Sprintf("%s: %s has no invariant (using true)", f.fn.String(), key))
 	}
-	// 2. invariant holds on entry
-	env := f.loopEnv(st, entryVals, h)
 	for _, inv := range invs {
 		tag := inv.Tag
 		if tag == "" {
@@ -1327,6 +1370,7 @@ func (f *Frame) iterateCall(ct *Contract, sig *types.Signature, args []Val, vars
 	}
 	// 1. invariant on entry
 	e0 := mkInvEnv(st, "0", "false")
+	invs = f.usableInvariants(key, e0)
 	for _, inv := range invs {
 		tag := inv.Tag
 		if tag == "" {
